@@ -110,7 +110,9 @@ static void cb_clear(void *it_, void *p)
 
 static void check_live_nodes(const char *when)
 {
-    MC_CHECK(PC08, shim_nlive() == m_count, "%s: the map holds %d live allocations for %d entries", when, shim_nlive(), m_count);
+    /* how many allocations back the entries is the implementation's business; what is stated is that clear releases everything (checked at
+     * clear, which is applied in every reachable state, so a node leaked by erase surfaces there) */
+    MC_CHECK(PC08, shim_nlive() >= (m_count > 0), "%s: the map holds %d live allocations for %d entries", when, shim_nlive(), m_count);
     MC_CHECK(PC08, shim_errors == 0, "%s: the map passed a pointer to free() that it does not own (double or foreign free)", when);
 }
 
